@@ -350,7 +350,14 @@ class Explore:
 
 
 def sample_third(lines, k=3):
+    if len(lines) <= 450000: return list(lines)      # profile-only differences must not depend on which third is sampled
     return [l for i, l in enumerate(lines) if i % k == 0]
+
+
+def JL_num_text(v):
+    """the JSON text serde_json prints for a number (via the model's printer for floats)"""
+    if isinstance(v, int): return str(v)
+    return jl.run_model(["to_string " + enc(v)])[0] and "".join(chr(int(t)) for t in jl.run_model(["to_string " + enc(v)])[0][1:].split(","))
 
 
 def explore(pid, tier, seed, ex):
@@ -419,6 +426,11 @@ def explore(pid, tier, seed, ex):
                     ex.violate("oracle: operator name not dispatched (returned as a literal)", c[-1], r, "an operation result")
     elif pid == "C03":
         cases = streams.s_arity(tier)
+        mod = [c[3] for c in cases if c[0] == "model"]
+        rmi = R.impl(mod); rmm = R.model(mod); ex.account(mod, rmi)
+        for l, a, m in zip(mod, rmi, rmm):
+            if jl.is_bad(a) or not same(a, m):
+                ex.violate("a wrong operand count in a lazily parsed position / nested operand is not handled as the model says (error vs value)", l, a, m)
         cnt = [c for c in cases if c[0] in ("count", "count-filler")]
         lines = [c[3] for c in cnt]
         ri = R.impl(lines); rm = R.model(lines)
@@ -457,8 +469,8 @@ def explore(pid, tier, seed, ex):
         for l, a, m in zip(longs, rl, ml):
             if jl.is_bad(a): ex.violate("an undocumented operand count / unbracketed operand crashed instead of being rejected", l, a, "err")
             elif not same(a, m): ex.violate("impl-vs-model on arity stream (long operands)", l, a, m)
-        rr = R.impl(sample_third(lines, 2), rel); rd = [r for i, r in enumerate(ri) if i % 2 == 0]
-        for l, a, b in zip(sample_third(lines, 2), rr, rd):
+        rr = R.impl(lines, rel); rd = ri
+        for l, a, b in zip(lines, rr, rd):
             if not same(a, b): ex.violate("release build differs from debug build on arity", l, a, b)
     elif pid == "C04":
         run_c04(ex, g, tier, both)
@@ -479,6 +491,12 @@ def explore(pid, tier, seed, ex):
         rad = [radix_lit() for _ in range(4000 if tier == "quick" else 100000)]
         lines = ["str_to_number " + enc(s) for s in gen.NUMSTRS + [g.string() for _ in range(2000)] + rad]
         lines += [gen.app({"==": [s, {"var": ""}]}, 2305843009213694464) for s in rad[:300]]
+        for nv in gen.NUMS:
+            if isinstance(nv, (int, float)) and not isinstance(nv, bool):
+                txt = JL_num_text(nv)
+                for arrv in ([nv], [[nv]], [nv, nv]):
+                    sform = txt if arrv != [nv, nv] else txt + "," + txt
+                    lines += [gen.via_var("==", [arrv, sform]), gen.via_var("==", [sform, arrv]), gen.via_var("!=", [arrv, sform]), gen.via_var("==", [arrv, nv]), gen.via_var("<=", [arrv, sform])]
         both(lines, {"C07"}, "str_to_number")
     elif pid == "C08":
         both(streams.s_pairs(["===", "!=="], ["strict_eq", "strict_ne"], tier, g), {"C08"}, "pairs")
@@ -609,7 +627,7 @@ def run_c04(ex, g, tier, both):
     # release profile on a sample
     sl = sample_third(lines)
     rr = R.impl(sl, "release")
-    for l, a, b in zip(sl, rr, [r for i, r in enumerate(ri) if i % 3 == 0]):
+    for l, a, b in zip(sl, rr, (ri if len(sl) == len(lines) else [r for i, r in enumerate(ri) if i % 3 == 0])):
         if not same(a, b):
             ex.violations.append(dict(kind="release-vs-debug", line=l, case=show_line(l)[:600], impl=a[:300], model=b[:300], owner=owner_of(l)))
     # renaming oracle on the implementation alone: operation-shaped values in the data are inert, so renaming their operator keys
